@@ -91,7 +91,7 @@ def long_cer(kind, size, x):
     """CER 1000-octet segmentation of long strings, checked by the reference reader and rules."""
     from vfw.schema import T
 
-    t = [T("OCTS"), T("STR:UTF8").tagged(("I", "C", 1)), T("BITS")][kind]
+    t = [T("OCTS"), T("STR:UTF8").tagged(("I", "C", 1)), T("BITS"), T("BITS").tagged(("I", "C", 5))][kind]
     n = [999, 1000, 1001, 2001][size]
     body = bytes([x]) + bytes([(i * 7 + 3) % 120 + 1 for i in range(n - 1)])
     av = body if kind < 2 else (n * 8 - 3, int.from_bytes(body, "big") // 8)
@@ -125,6 +125,6 @@ OBLIGATIONS.append(Obl("len_kernel", len_kernel, {"n": I(0, 2 ** 40)}, thorough=
 OBLIGATIONS.append(Obl("tag_kernel", tag_kernel, {"c": I(0, 3), "constructed_tag": B, "constructed_value": B, "num": I(0, 2 ** 36)},
                        thorough={"num": I(0, 2 ** 63)}, shards=[{"c": C(c)} for c in range(4)], budget=120, thorough_budget=400,
                        doc="encodeTag == X.690 identifier octets for every class x form x number in range"))
-OBLIGATIONS.append(Obl("long_cer", long_cer, {"kind": I(0, 2), "size": I(0, 3), "x": I(1, 120)},
-                       shards=[{"kind": C(k)} for k in range(3)], budget=120, per_path=60,
+OBLIGATIONS.append(Obl("long_cer", long_cer, {"kind": I(0, 3), "size": I(0, 3), "x": I(1, 120)},
+                       shards=[{"kind": C(k)} for k in range(2)] + [{"kind": C(k), "size": C(z), "x": C(7)} for k in (2, 3) for z in range(4)], budget=120, per_path=60,
                        doc="CER segmentation at 999/1000/1001/2001 octets"))
